@@ -118,7 +118,7 @@ def parse_directive_text(
         has_options_block = result.has_options
         options = result.options
         body_lines = result.content.splitlines()
-        content_offset = len(content.splitlines()) - len(body_lines)
+        content_offset = result.offset
     else:
         parse_warnings = []
         has_options_block = False
@@ -163,6 +163,8 @@ class _DirectiveOptions:
     options: dict[str, Any]
     warnings: list[ParseWarnings]
     has_options: bool
+    offset: int = 0
+    """The number of content lines taken up by the options block."""
 
 
 def _parse_directive_options(
@@ -177,13 +179,17 @@ def _parse_directive_options(
     :returns: (content, options, validation_errors)
     """
     options_block: None | str = None
+    offset = 0
     if content.startswith("---"):
         line = None if line is None else line + 1
+        offset = len(content.splitlines())
         content = "\n".join(content.splitlines()[1:])
         match = re.search(r"^-{3,}", content, re.MULTILINE)
         if match:
             options_block = content[: match.start()]
             content = content[match.end() + 1 :]  # TODO advance line number
+            # opening delimiter + option lines + closing delimiter
+            offset = options_block.count("\n") + 2
         else:
             options_block = content
             content = ""
@@ -197,6 +203,7 @@ def _parse_directive_options(
             yaml_lines.append(content_lines.pop(0).lstrip()[1:])
         options_block = "\n".join(yaml_lines)
         content = "\n".join(content_lines)
+        offset = len(yaml_lines)
 
     has_options_block = options_block is not None
 
@@ -222,7 +229,9 @@ def _parse_directive_options(
                     MystWarnings.DIRECTIVE_OPTION,
                 )
             )
-        return _DirectiveOptions(content, yaml_options, yaml_errors, has_options_block)
+        return _DirectiveOptions(
+            content, yaml_options, yaml_errors, has_options_block, offset
+        )
 
     validation_errors: list[ParseWarnings] = []
 
@@ -243,6 +252,7 @@ def _parse_directive_options(
                     )
                 ],
                 has_options_block,
+                offset,
             )
         if state.has_comments:
             validation_errors.append(
@@ -256,7 +266,7 @@ def _parse_directive_options(
     if issubclass(directive_class, TestDirective):
         # technically this directive spec only accepts one option ('option')
         # but since its for testing only we accept all options
-        return _DirectiveOptions(content, options, [], has_options_block)
+        return _DirectiveOptions(content, options, [], has_options_block, offset)
 
     if additional_options:
         # The options block takes priority over additional options
@@ -303,7 +313,9 @@ def _parse_directive_options(
             )
         )
 
-    return _DirectiveOptions(content, new_options, validation_errors, has_options_block)
+    return _DirectiveOptions(
+        content, new_options, validation_errors, has_options_block, offset
+    )
 
 
 def parse_directive_arguments(
